@@ -92,6 +92,50 @@ def label_cases(chk, exe, d):
     return [('genlabel:%s:%d' % (nm, order), base(nm, order)) for nm in cand[:12] for order in (0, 1)]
 
 
+def text_family(chk, exe, d, tier, rng):
+    """spec/XTextV: source TEXT -> tokens (xcmp's lexer) -> XSyntax -> XFold!Static -> XText -> XLang, against the binary's behaviour"""
+    import xtext, corpus
+    srcs = []
+    nvar = 40 if tier == "quick" else 600
+    for path in corpus.repo_sources_x():
+        name = os.path.basename(path)
+        if name == "xhexb.x":
+            continue
+        text = open(path, encoding="latin-1").read()
+        for j, inp in enumerate([[97], [], [255, 1]] if name == "echo_char.x" else [[]]):
+            srcs.append(('text:file:%s#%d' % (name, j), text, inp))
+        for j, v in enumerate(xtext.variations(text, rng, nvar)):
+            srcs.append(('text:var:%s:%d' % (name, j), v, [66, 200, 10] if 'get' in v or '2(' in v else []))
+    tp = xlib.template_programs(rng)
+    rng.shuffle(tp)
+    for pid, P in tp[:(60 if tier == "quick" else len(tp))]:
+        base = xlib.src_of(P)
+        for j, v in enumerate(xtext.variations(base, rng, 4 if tier == "quick" else 30)):
+            srcs.append(('text:tvar:%s:%d' % (pid, j), v, [66, 200, 10]))
+    recs, res = xtext.run(d, exe, srcs, fuel=400000 if tier != "quick" else 60000, maxdepth=400)
+    can = json.loads(json.dumps(next(r for r in recs if r['id'].startswith('text:file:hello_putval')))); can['id'] = 'canary'; can['obs']['xv'] += 1
+    verd = xlib.validate(recs + [can], d, "c01text", module="XTextV", cfg="XTextV.cfg")
+    if verd[-1]['v'] != 'bad':
+        raise vlib.MachineryError("canary accepted by XTextV: binding is not live (%s)" % verd[-1])
+    cnt = collections.Counter(); ok = 0
+    for (sid, text, inp), r, v in zip(srcs, res, verd[:-1]):
+        cnt[v['v'] + (":" + v['why'] if v['v'] == 'skip' else '')] += 1
+        if v['v'] == 'ok':
+            ok += 1
+        elif v['v'] == 'rejected':
+            chk.add("defined_programs_rejected_by_xcmp")
+            if len(chk.cov.setdefault("text_rejected_examples", [])) < 5:
+                chk.cov["text_rejected_examples"].append({"id": sid, "diag": r.get('diag')})
+        elif v['v'] == 'bad':
+            what = "xcmp %s" % r['status'] if r['status'] in ('crash', 'timeout', 'missing') else v['why']
+            chk.violation("text:%s" % what, "source %s: the binary's behaviour differs from the X definition (%s): spec exit value %s; binary %s xv=%s out=%s"
+                          % (sid, what, v.get('xv'), r['status'], r.get('xv'), str(r.get('out'))[:200]), {"prog.x": text, "input.json": json.dumps(inp)})
+    chk.set("text_sources", len(srcs)); chk.set("text_verdicts", dict(cnt)); chk.set("text_defined_and_agreeing", ok)
+    chk.add("states", sum(v.get('n', 0) for v in verd[:-1])); chk.add("transitions", sum(v.get('n', 0) for v in verd[:-1]))
+    chk.vacuity(ok < (150 if tier == "quick" else 2000), "text family: only %d sources inside the definition's domain" % ok)
+    return ok
+
+
 def judge(chk, cases, res, verd, pid=PID):
     cnt = collections.Counter()
     ok = 0
@@ -192,6 +236,7 @@ def run(tier, replay=None):
             raise vlib.MachineryError("canary accepted: binding is not live (%s)" % verd[-1])
         ok, cnt = judge(chk, cases, res, verd[:-1])
         steps = sum(v['n'] for v in verd[:-1])
+        ok += text_family(chk, exe, d, tier, rng)
         frames(chk, exe, cases, verd[:-1], d, tier)
         chk.add("states", steps); chk.add("transitions", steps)
         chk.set("programs", len(cases))
